@@ -170,6 +170,10 @@ func (c *Channel) Deliver(out, x []byte) ([]byte, error) {
 					c.lastReceived = now
 				}
 				appData = out
+				if appData == nil {
+					// an empty application message is still a message: callers test for out != nil
+					appData = []byte{}
+				}
 				return nil, nil
 			}
 			if len(out) == 0 {
